@@ -1040,6 +1040,19 @@ class PseudoNetCDFFile(PseudoNetCDFSelfReg, object):
                 isinstance(val, (PseudoNetCDFVariable,)) and
                 val.dimensions != ()
             ):
+                # the result carries the dimension names of the variable it
+                # was derived from; a reduction, an index or a transpose
+                # changes the shape, and the names no longer describe it
+                dimlens = tuple([
+                    len(outf.dimensions[dk]) if dk in outf.dimensions else None
+                    for dk in val.dimensions
+                ])
+                if tuple(val.shape) != dimlens:
+                    raise ValueError(
+                        ('%s has shape %s, but the dimensions %s it ' +
+                         'inherits have lengths %s; create the variable ' +
+                         'with the dimensions of the result instead') %
+                        (key, tuple(val.shape), val.dimensions, dimlens))
                 if any(val is v for v in self.variables.values()):
                     # a bare name ('C = A'): the result gets its own copy,
                     # not the input's variable object
